@@ -39,7 +39,9 @@ def run(ctx):
         ctx.guard("union-order" + tag, union_order, ctx, crate, crs, tag)
 
 
-REORDER = {"rev", "sorted", "sorted_by", "sorted_by_key", "sort", "sort_by", "sort_by_key", "sort_unstable", "skip", "take", "step_by",
+REORDER = {"rev", "sorted", "sorted_by", "sorted_by_key", "sorted_unstable", "sorted_unstable_by", "sorted_unstable_by_key", "sorted_by_cached_key",
+           "sort_unstable_by", "sort_unstable_by_key", "kmerge", "merge", "dedup_by", "dedup_by_key", "unique_by", "skip_while", "take_while",
+           "sort", "sort_by", "sort_by_key", "sort_unstable", "skip", "take", "step_by",
            "filter", "dedup", "unique", "rev_iter", "reverse", "rotate_left", "rotate_right", "swap", "interleave", "chain"}
 
 
@@ -111,6 +113,19 @@ def order_preserved(ctx, crate, crs, tag):
             names = _chain_names(un, t["args"][0])
             ok = "version_sets_in_union" in names and "map" in names and not (set(names) & REORDER)
         ctx.ob(R, un.key, "union-candidates-concatenated-in-union-order", ok, un.loc(), "union candidates are the per-member lists in member order")
+    # Requirement::version_sets - the one place every consumer gets a requirement's version sets from - hands out the interner's
+    # own sequence (listing order of the union), through order-preserving wrappers only
+    vs = body_by_key(crate, "resolvo::requirement::Requirement::version_sets")
+    if vs is None:
+        ctx.ob(R, "resolvo::requirement::Requirement::version_sets", "exists", False, "", "Requirement::version_sets not found")
+    else:
+        names = [t["f"]["name"] for i, t in vs.calls() if t.get("f") and not vs.blocks[i].get("cleanup")]
+        for cb in crate.bodies:
+            if cb.kind == "Closure" and cb.root and strip_generics(cb.root) == vs.key:
+                names += [t["f"]["name"] for i, t in cb.calls() if t.get("f")]
+        bad = sorted(set(names) & REORDER)
+        ctx.ob(R, vs.key, "union-members-in-listing-order", "version_sets_in_union" in names and not bad, vs.loc(),
+               "the members of a union are yielded exactly as Interner::version_sets_in_union lists them%s" % ((" (re-ordering / dropping adaptors: %s)" % bad) if bad else ""))
 
 
 def _chain_names(b, op, depth=0, seen=None):
